@@ -225,11 +225,24 @@ Proof.
   inversion H; subst. exists [], a, l. repeat split; try assumption. unfold eff_count. rewrite K. exact E1.
 Qed.
 
+(* the two-level fill gives the minimum of both grants and the amount wanted *)
+Lemma nested_pos rl rg amt : 0 < rl -> 0 < rg -> 0 <= amt ->
+  nested rl rg amt = Z.min (Z.min rl rg) amt.
+Proof.
+  intros A B C. unfold nested. destruct (Z.min rl amt =? 0) eqn:E.
+  - apply Z.eqb_eq in E. lia.
+  - apply Z.eqb_neq in E. lia.
+Qed.
+
+Lemma nested_bounds rl rg amt : 0 < rl -> 0 < rg -> 0 <= amt ->
+  0 <= nested rl rg amt /\ nested rl rg amt <= rl /\ nested rl rg amt <= rg /\ nested rl rg amt <= amt.
+Proof. intros A B C. rewrite (nested_pos rl rg amt A B C). lia. Qed.
+
 (* ------------------------------------------------------------------ *)
 (* one iteration of the loop, unfolded                                  *)
 (* ------------------------------------------------------------------ *)
 
-Definition cont (f : nat) (g : nat -> Z) (rest : bytes) (total1 : Z) (evs0 : list ev)
+Definition cont (f : nat) (g : nat -> Z * Z) (rest : bytes) (total1 : Z) (evs0 : list ev)
            (s' : st) (extra : list ev) : st * list ev * res :=
   let '(s3, evs3, r) := body_loop f g s' rest total1 in (s3, evs0 ++ extra ++ evs3, r).
 
@@ -242,7 +255,7 @@ Definition amount (s : st) (len : Z) : Z :=
 Lemma body_loop_step f g s x b' total :
   body_loop (S f) g s (x :: b') total =
   let bb := x :: b' in
-  let mx := Z.min (g (gi s)) (amount s (Zlength bb)) in
+  let mx := nested (fst (g (gi s))) (snd (g (gi s))) (amount s (Zlength bb)) in
   match take mx bb with
   | None => (s, [], RPanic)
   | Some (chunk, rest) =>
@@ -285,10 +298,10 @@ Section Loop.
 
 Variable acts0 : list action.      (* Shape.Actions when the context was set *)
 Variable rs hl : Z.                (* range start, head length *)
-Variable g : nat -> Z.             (* bucket grants *)
+Variable g : nat -> Z * Z.         (* bucket grants: (local, global) per chunk *)
 Hypothesis sorted0 : StronglySorted by_byte acts0.
 Hypothesis hl_nonneg : 0 <= hl.
-Hypothesis g_pos : forall i, 0 < g i.
+Hypothesis g_pos : forall i, 0 < fst (g i) /\ 0 < snd (g i).
 
 (* an action already passed: behind the range start, disabled, or a fired
    non-close action whose event sits exactly at hl + (byte - rs) *)
@@ -432,12 +445,15 @@ Proof.
     set (bb := x :: b') in *.
     assert (Hlen1 : 1 <= Zlength bb) by (unfold bb; rewrite Zlength_cons; pose proof (zlen_nonneg b'); lia).
     assert (Hlenb : length bb = S (length b')) by reflexivity.
-    pose proof (g_pos (gi s)) as Hg.
+    destruct (g_pos (gi s)) as [Hg1 Hg2].
+    set (gm := Z.min (fst (g (gi s))) (snd (g (gi s)))) in *.
+    assert (Hg : 0 < gm) by (unfold gm; lia).
     destruct todo as [|a t].
     + (* ---- no action ahead ---- *)
       pose proof (iv_next _ _ _ _ I) as Hn. cbn in Hn.
       unfold amount in H. rewrite Hn in H.
-      set (mx := Z.min (g (gi s)) (Zlength bb)) in *.
+      rewrite (nested_pos _ _ (Zlength bb) Hg1 Hg2) in H by lia. fold gm in H.
+      set (mx := Z.min gm (Zlength bb)) in *.
       assert (Hmx : 0 < mx <= Zlength bb) by (unfold mx; lia).
       rewrite (take_some mx bb) in H by lia.
       unfold cont in H.
@@ -457,7 +473,8 @@ Proof.
       set (amt := if till <=? Zlength bb then till else Zlength bb) in *.
       assert (Hamt : 0 <= amt <= Zlength bb /\ amt <= till /\ (amt = 0 -> till = 0)).
       { unfold amt. destruct (till <=? Zlength bb) eqn:E; [apply Z.leb_le in E | apply Z.leb_gt in E]; unfold till in *; lia. }
-      set (mx := Z.min (g (gi s)) amt) in *.
+      rewrite (nested_pos _ _ amt Hg1 Hg2) in H by lia. fold gm in H.
+      set (mx := Z.min gm amt) in *.
       assert (Hmx : 0 <= mx <= amt /\ (mx = 0 -> amt = 0)) by (unfold mx; lia).
       rewrite (take_some mx bb) in H by lia.
       set (chunk := firstn (Z.to_nat mx) bb) in *.
@@ -761,7 +778,7 @@ Definition shaped_start (acts0 : list action) (thr : list throttle) (rs hl : Z) 
   fst (open_ctx true acts0 thr true rs hl lt i).
 
 Lemma run_outcome acts0 thr rs hl lt i g ws s' evs r :
-  StronglySorted by_byte acts0 -> 0 <= hl -> rs > -1 -> (forall k, 0 < g k) ->
+  StronglySorted by_byte acts0 -> 0 <= hl -> rs > -1 -> (forall k, 0 < fst (g k) /\ 0 < snd (g k)) ->
   run g (shaped_start acts0 thr rs hl lt i) ws = (s', evs, r) ->
   Outcome acts0 rs hl s' evs r.
 Proof.
@@ -773,7 +790,7 @@ Qed.
 
 (* never a panic, never out of fuel; the close clause; a forced close is last *)
 Lemma loop_safe_and_close acts0 thr rs hl lt i g ws s' evs r :
-  StronglySorted by_byte acts0 -> 0 <= hl -> rs > -1 -> (forall k, 0 < g k) ->
+  StronglySorted by_byte acts0 -> 0 <= hl -> rs > -1 -> (forall k, 0 < fst (g k) /\ 0 < snd (g k)) ->
   run g (shaped_start acts0 thr rs hl lt i) ws = (s', evs, r) ->
   r <> RPanic /\ r <> RFuel /\
   close_spec acts0 rs hl (concat ws) (emitted evs) (is_closed r) /\
@@ -791,7 +808,7 @@ Qed.
 
 (* close at k, explicit form *)
 Lemma close_at_k acts0 thr rs hl lt i g ws s' evs r l1 c l2 :
-  StronglySorted by_byte acts0 -> 0 <= hl -> rs > -1 -> (forall k, 0 < g k) ->
+  StronglySorted by_byte acts0 -> 0 <= hl -> rs > -1 -> (forall k, 0 < fst (g k) /\ 0 < snd (g k)) ->
   acts0 = l1 ++ c :: l2 -> kind c = KClose -> count c <> 0 -> rs <= abyte c ->
   Forall (not_live_close rs) l1 ->                       (* no earlier live close *)
   hl + (abyte c - rs) < Zlength (concat ws) ->           (* more than that was written *)
@@ -811,7 +828,7 @@ Qed.
 
 (* halts and bandwidth changes: exactly at their offset, before any later byte *)
 Lemma action_at_offset acts0 thr rs hl lt i g ws s' evs r a :
-  StronglySorted by_byte acts0 -> 0 <= hl -> rs > -1 -> (forall k, 0 < g k) ->
+  StronglySorted by_byte acts0 -> 0 <= hl -> rs > -1 -> (forall k, 0 < fst (g k) /\ 0 < snd (g k)) ->
   run g (shaped_start acts0 thr rs hl lt i) ws = (s', evs, r) ->
   In a acts0 -> kind a <> KClose -> eff_count a <> 0 -> rs <= abyte a ->
   hl + (abyte a - rs) < Zlength (emitted evs) ->          (* a later byte was delivered *)
@@ -825,7 +842,7 @@ Proof.
 Qed.
 
 Lemma halt_sleeps acts0 thr rs hl lt i g ws s' evs r a d :
-  StronglySorted by_byte acts0 -> 0 <= hl -> rs > -1 -> (forall k, 0 < g k) ->
+  StronglySorted by_byte acts0 -> 0 <= hl -> rs > -1 -> (forall k, 0 < fst (g k) /\ 0 < snd (g k)) ->
   run g (shaped_start acts0 thr rs hl lt i) ws = (s', evs, r) ->
   In a acts0 -> kind a = KHalt d -> count a <> 0 -> rs <= abyte a ->
   hl + (abyte a - rs) < Zlength (emitted evs) ->
@@ -840,7 +857,7 @@ Proof.
 Qed.
 
 Lemma counts_after_run acts0 thr rs hl lt i g ws s' evs r :
-  StronglySorted by_byte acts0 -> 0 <= hl -> rs > -1 -> (forall k, 0 < g k) ->
+  StronglySorted by_byte acts0 -> 0 <= hl -> rs > -1 -> (forall k, 0 < fst (g k) /\ 0 < snd (g k)) ->
   run g (shaped_start acts0 thr rs hl lt i) ws = (s', evs, r) ->
   exists done todo, acts0 = done ++ todo /\
     acts s' = map (fun a => if abyte a <? rs then a else dec a) done ++ todo /\
@@ -867,7 +884,7 @@ Lemma abyte_fire rs a : abyte (fire rs a) = abyte a.
 Proof. unfold fire. destruct (abyte a <? rs); [reflexivity | apply abyte_dec]. Qed.
 
 Lemma sorted_after_run acts0 thr rs hl lt i g ws s' evs r :
-  StronglySorted by_byte acts0 -> 0 <= hl -> rs > -1 -> (forall k, 0 < g k) ->
+  StronglySorted by_byte acts0 -> 0 <= hl -> rs > -1 -> (forall k, 0 < fst (g k) /\ 0 < snd (g k)) ->
   run g (shaped_start acts0 thr rs hl lt i) ws = (s', evs, r) ->
   StronglySorted by_byte (acts s') /\ map abyte (acts s') = map abyte acts0 /\ map kind (acts s') = map kind acts0.
 Proof.
